@@ -40,6 +40,7 @@ PATH_THEOREMS = ['traitPath_eq', 'supportsUnion_eq']
 WORD_THEOREMS = ['srcWords_closed', 'srcTemps_prefixed', 'pathFromStrs_rooted']
 UNSAFE_THEOREMS = ['unsafeTemplates_guarded']
 PANIC_THEOREMS = ['panicSites_known']
+CFG_THEOREMS = ['cfgSites_known']
 
 THEOREMS = ['groupTraits_eq', 'groups_complete', 'traits_complete', 'ints_complete', 'traitSupported_eq', 'traitOfName_eq',
             'traitOfName_complete', 'traitOfName_asStr', 'groupOfName_eq', 'groupOfName_complete', 'reprOfName_eq',
@@ -168,6 +169,10 @@ def extract(repo):
     except (Missing, OSError, ValueError, IndexError) as e:
         out['panic_sites'] = None
     try:
+        out['cfg_sites'] = extract_cfg_sites(repo)
+    except (OSError, ValueError) as e:
+        out['cfg_sites'] = None
+    try:
         out['unsafe_sites'] = extract_unsafe_sites(repo)
     except (Missing, OSError, ValueError, IndexError, StopIteration) as e:
         out['unsafe_sites'] = None
@@ -251,6 +256,25 @@ def extract_panic_sites(repo):
     return sorted(sites)
 
 
+def extract_cfg_sites(repo):
+    """Every `cfg(feature = ..)` / `cfg!(feature = ..)` of the source, as (file, condition without blanks, occurrences)."""
+    import glob
+    import collections
+    c = collections.Counter()
+    for f in sorted(glob.glob(os.path.join(repo, 'src/**/*.rs'), recursive=True)):
+        if '/src/test/' in f or f.endswith('verif_hook.rs'):
+            continue
+        for line in open(f):
+            t = line.strip()
+            if t.startswith('//'):
+                continue
+            for m in re.finditer(r'cfg!?\(((?:[^()]|\([^()]*\))*)\)', t):
+                e = m.group(1).replace(' ', '')
+                if 'feature=' in e:
+                    c[(os.path.relpath(f, repo), e)] += 1
+    return sorted((f, e, n) for (f, e), n in c.items())
+
+
 def extract_unsafe_sites(repo):
     """Every token template of the source that contains the word `unsafe`, with whether the statement or match arm it
     belongs to carries `#[cfg(not(feature = "safe"))]` (the nearest `#[cfg(..)]` within the three lines above)."""
@@ -278,7 +302,7 @@ def extract_unsafe_sites(repo):
 
 
 def lean_file(t):
-    L = ['import DW.Validate', 'import DW.Message', 'import DW.Render', 'import DW.Spec', 'import DW.Lemmas.Vocab', 'import DW.PanicSites', '',
+    L = ['import DW.Validate', 'import DW.Message', 'import DW.Render', 'import DW.Spec', 'import DW.Lemmas.Vocab', 'import DW.PanicSites', 'import DW.CfgSites', '',
          '/-! Tables extracted from the Rust source on this run, and their equality with the model (kernel-checked). -/',
          'namespace DW.Extracted', 'open DW', '']
     L.append('def zcfg : Cfg := { safe := false, nightly := false, zeroize := true, zod := true }')
@@ -347,6 +371,11 @@ def lean_file(t):
         L += ['/-- The panic sites of the current source are exactly the ones `DW/PanicSites.lean` accounts for. -/',
               'theorem panicSites_known : srcPanicSites = knownPanicSites := by decide +kernel']
         names += PANIC_THEOREMS
+    if t.get('cfg_sites') is not None:
+        L.append('def srcCfgSites : List (String × String × Nat) := [%s]' % ', '.join('(%s, %s, %d)' % (lean_str(f), lean_str(e), n) for f, e, n in t['cfg_sites']))
+        L += ['/-- The feature-dependent sites of the current source are exactly the ones `DW/CfgSites.lean` accounts for. -/',
+              'theorem cfgSites_known : srcCfgSites = knownCfgSites := by decide +kernel']
+        names += CFG_THEOREMS
     if t.get('unsafe_sites') is not None:
         L.append('def unsafeSites : List (String × Nat × Bool) := [%s]' % ', '.join('(%s, %d, %s)' % (lean_str(f), n, 'true' if g else 'false') for f, n, g in t['unsafe_sites']))
         L += ['/-- Every token template of the source that says `unsafe` is compiled only without the `safe` feature (the source-side',
@@ -371,6 +400,8 @@ def check(prop):
         t['unsafe_sites'] = None   # the cfg guards of the `unsafe` templates are C12's
     if prop != 'C16':
         t['panic_sites'] = None    # the inventory of panic sites is C16's
+    if prop != 'C13':
+        t['cfg_sites'] = None      # the inventory of feature-dependent sites is C13's
     os.makedirs(runner.WORK, exist_ok=True)
     f = os.path.join(runner.WORK, 'Tables_%s.lean' % prop)
     open(f, 'w').write(lean_file(t))
@@ -381,7 +412,7 @@ def check(prop):
         return ['the tables extracted from the source differ from the model\'s (%s): %s' % (os.path.relpath(f, runner.VERIF), ' | '.join(errs)[:600])], 0
     bad = []
     global LAST_NAMES
-    LAST_NAMES = list(THEOREMS) + (PATH_THEOREMS if t.get('paths') else []) + (WORD_THEOREMS if t.get('words') is not None else []) + (PANIC_THEOREMS if t.get('panic_sites') is not None else []) + (UNSAFE_THEOREMS if t.get('unsafe_sites') is not None else [])
+    LAST_NAMES = list(THEOREMS) + (PATH_THEOREMS if t.get('paths') else []) + (WORD_THEOREMS if t.get('words') is not None else []) + (PANIC_THEOREMS if t.get('panic_sites') is not None else []) + (CFG_THEOREMS if t.get('cfg_sites') is not None else []) + (UNSAFE_THEOREMS if t.get('unsafe_sites') is not None else [])
     for n in LAST_NAMES:
         m = re.search(r"'DW\.Extracted\.%s' (does not depend on any axioms|depends on axioms: \[([^\]]*)\])" % n, p.stdout)
         if not m:
